@@ -17,6 +17,7 @@ package handler
 //@ event SendResponseRefused = ret interop.(InvokeResponseSender).SendResponse when r0 == interop.ErrInvalidInvokeID || r0 == interop.ErrResponseSent
 //@ event SendError = call interop.(InvokeResponseSender).SendErrorResponse
 //@ event SendErrorOK = ret interop.(InvokeResponseSender).SendErrorResponse when r0 == nil
+//@ event SendErrorTooLarge = ret interop.(InvokeResponseSender).SendErrorResponse when typeis(r0, *interop.ErrorResponseTooLarge)
 //@ event SendInitError = call interop.(Server).SendInitErrorResponse
 //@ event StoreTrace = call appctx.StoreInvokeErrorTraceData
 //@ event RtNext = call core.(*Runtime).Ready
@@ -65,9 +66,13 @@ package handler
 //@ func (*invocationErrorHandler).ServeHTTP
 //@   ensures [one-transition] delta(RtError) == 1
 //@   ensures [refused-403] delta(RtErrorRefused) == 1 ==> delta(Render403) == 1 && noSideEffects()
-//@   ensures [accepted-sends] delta(RtErrorRefused) == 0 ==> delta(SendError) == 1 && delta(Render403) == 0
-//@   ensures [ok-202] delta(SendErrorOK) == 1 ==> delta(RtResponseSent) == 1 && delta(RenderAccepted) == 1 && delta(StoreTrace) == 1
-//@   ensures [refused-by-server-400] delta(SendError) == 1 && delta(SendErrorOK) == 0 ==> delta(RenderInterop) == 1 && delta(RtResponseSent) == 0 && delta(RenderAccepted) == 0
+//@   ensures [accepted-sends] delta(RtErrorRefused) == 0 ==> delta(SendError) >= 1 && delta(Render403) == 0
+//@   ensures [ok-202] delta(SendErrorTooLarge) == 0 && delta(SendErrorOK) == 1 ==> delta(RtResponseSent) == 1 && delta(RenderAccepted) == 1 && delta(StoreTrace) == 1
+//@   ensures [refused-by-server-400] delta(SendError) == 1 && delta(SendErrorOK) == 0 && delta(SendErrorTooLarge) == 0 ==> delta(RenderInterop) == 1 && delta(RtResponseSent) == 0 && delta(RenderAccepted) == 0
+// an error body above the payload limit is handled like a response above it: the caller gets the size error, the runtime is
+// told 413 and its protocol state moves on (it was left in "error being sent" with a dropped connection)
+//@   ensures [oversize-error-body-gets-a-substitute] delta(SendErrorTooLarge) >= 1 ==> delta(SendError) == 2
+//@   ensures [oversize-413] delta(SendErrorTooLarge) == 1 && delta(SendErrorOK) == 1 ==> delta(RtResponseSent) == 1 && delta(Render413) == 1 && delta(RenderAccepted) == 0 && delta(RenderInterop) == 0
 
 //@ func (*initErrorHandler).ServeHTTP
 //@   ensures [at-most-one-transition] delta(RtInitError) + delta(RtRestoreError) == 1
